@@ -2015,9 +2015,14 @@ class ClosePositionsAfterDates(Algo):
         if "closed" not in target.perm:
             target.perm["closed"] = set()
         close_dates = target.get_data(self.close_dates)["date"]
-        # Find securities that are candidate for closing
+        # Find securities that are candidate for closing. A name that is not
+        # a child (yet) - securities named by a string are only created when
+        # first traded - matures all the same: it has nothing to close, but
+        # it is recorded as closed so that SelectActive keeps it out
         sec_names = [
-            sec_name for sec_name, sec in target.children.items() if isinstance(sec, SecurityBase) and sec_name in close_dates.index and sec_name not in target.perm["closed"]
+            sec_name
+            for sec_name in close_dates.index
+            if sec_name not in target.perm["closed"] and (sec_name not in target.children or isinstance(target.children[sec_name], SecurityBase))
         ]
 
         # Check whether closed
@@ -2025,7 +2030,8 @@ class ClosePositionsAfterDates(Algo):
 
         # Close position
         for sec_name in is_closed[is_closed].index:
-            target.close(sec_name, update=False)
+            if sec_name in target.children:
+                target.close(sec_name, update=False)
             target.perm["closed"].add(sec_name)
 
         # Now update
